@@ -22,6 +22,7 @@ type HarnessSpec struct {
 	Thorough  bool // only run in the thorough tier
 	QuickOnly bool
 	MaxPaths  int
+	StepCap   int64
 	Replay    string // "native" (same harness compiled natively), "" = none yet
 }
 
@@ -83,6 +84,11 @@ func cmdCheck(args []string) int {
 	evPath := filepath.Join(verifDir, "evidence", id+".json")
 	os.MkdirAll(filepath.Join(verifDir, "evidence", "cex"), 0o755)
 	os.Remove(evPath)
+	if old, _ := filepath.Glob(filepath.Join(verifDir, "evidence", "cex", id+"-*.json")); len(old) > 0 {
+		for _, f := range old {
+			os.Remove(f)
+		}
+	}
 
 	prog, err := loadProgram()
 	if err != nil {
@@ -122,6 +128,9 @@ func cmdCheck(args []string) int {
 			x.MaxPaths = hs.MaxPaths
 		}
 		x.PanicsAreFailures = hs.Panics
+		if hs.StepCap > 0 {
+			x.StepCap = hs.StepCap
+		}
 		x.Budget = time.Duration(envInt("VX_BUDGET", 900)) * time.Second
 		x.Known = known
 		x.Run()
